@@ -141,10 +141,27 @@ def warm():
     """one warm build of the harness crate dependencies under Kani (setup)"""
     d = os.path.join(WORK, 'kani', 'warm')
     write_crate(d, {'m_warm': 'pub fn f(x: u8) -> u8 { x }\n#[cfg(kani)]\n#[kani::proof]\nfn warm() { let x: u8 = kani::any(); assert!(f(x) == x); }\n'})
-    for shard in range(int(os.environ.get('VERIF_KANI_SHARDS', '8'))):
-        res, text = cargo_kani(d, shard_target(shard), jobs=1, total_timeout=1200)
-        if 'warm' not in res or res['warm'].status != 'success':
+    from concurrent.futures import ThreadPoolExecutor
+
+    def one(shard):
+        res, text = cargo_kani(d, shard_target(shard), jobs=1, total_timeout=1800)
+        r = res.get('m_warm::warm')
+        if r is None or r.status != 'success':
             raise BuildError('kani warm build failed:\n' + text[-3000:])
+    # one crate dir per shard: cargo locks the package directory's Cargo.lock, not only the target dir
+    shards = list(range(int(os.environ.get('VERIF_KANI_SHARDS', '8'))))
+    for sh in shards:
+        dd = os.path.join(WORK, 'kani', f'warm{sh}')
+        write_crate(dd, {'m_warm': 'pub fn f(x: u8) -> u8 { x }\n#[cfg(kani)]\n#[kani::proof]\nfn warm() { let x: u8 = kani::any(); assert!(f(x) == x); }\n'})
+
+    def one_dir(sh):
+        dd = os.path.join(WORK, 'kani', f'warm{sh}')
+        res, text = cargo_kani(dd, shard_target(sh), jobs=1, total_timeout=1800)
+        r = res.get('m_warm::warm')
+        if r is None or r.status != 'success':
+            raise BuildError('kani warm build failed:\n' + text[-3000:])
+    with ThreadPoolExecutor(4) as ex:
+        list(ex.map(one_dir, shards))
 
 
 def shard_target(i: int) -> str:
